@@ -5,6 +5,7 @@ package xconfmap
 import (
 	"fmt"
 	"math/rand/v2"
+	"regexp"
 	"sort"
 	"strings"
 	"testing"
@@ -484,6 +485,8 @@ func (g *c13Gen) structP(depth int) *c13StructP {
 // TestVerifC13Walk: xconfmap.Validate on generated trees; the reported (path, error) set is compared
 // with the Lean `validate`, and a direct oracle checks that every failing node that the generator
 // planted below exported positions is reported (completeness) and nothing else (soundness).
+var c13MultiMap = regexp.MustCompile(`M[^ :]*:([2-9]|[1-9][0-9]+) `)
+
 func TestVerifC13Walk(t *testing.T) {
 	out := vOpen(t)
 	defer out.Close()
@@ -516,12 +519,22 @@ func TestVerifC13Walk(t *testing.T) {
 				items = append(items, path+":"+line[i:])
 			}
 		}
+		ordered := "-"
+		if len(items) > 0 {
+			ordered = strings.Join(items, ",")
+		}
 		sort.Strings(items)
 		s := "-"
 		if len(items) > 0 {
 			s = strings.Join(items, ",")
 		}
 		out.Linef("obs errs %s", s)
+		// the ORDER of the reported errors (own error first, then fields / elements in order) is compared too whenever the
+		// tree has no map with two or more entries (Go map iteration order is the only source of nondeterminism in the walk)
+		if !c13MultiMap.MatchString(g.b.String()) {
+			out.Linef("obs order %s", ordered)
+			out.Linef("stat order_compared 1")
+		}
 		if g.nerr > 0 && strings.Contains(g.b.String(), "Q") || strings.Contains(g.b.String(), "M") {
 			out.Linef("nt")
 		}
